@@ -153,9 +153,9 @@ func runC14(ctx *core.Ctx, pool *par.Pool) {
 	}
 	for _, run := range runs {
 		cfg := run.Cfg
-		ctx.Share(ctx.Budget() / time.Duration(len(runs)))
+		ctx.Share(ctx.FairShare(len(runs), 1))
 		var grown, resized []*xstate.Node
-		flags := []string{"c14"}
+		flags := []string{"c14", "memdisk"}
 		if run.sweep {
 			flags = append(flags, "diskfmt")
 		}
